@@ -84,11 +84,23 @@ def strategy_(draw, tier):
       # enclosing sub-fixture G, handed down as a parameter), X is shared inside L only
       h = lambda uid, **kw: {'k': 'B', 'bt': 'Config', 'fn': {'kind': 'sym', 'name': 'things:h1'}, 'pos': [],
                              'kw': dict({'a': {'leaf': uid}}, **kw), 'edits': []}
+      if draw(st.booleans()):
+        # variant without P: all sharing stays inside the inner sub-fixture L (inside G)
+        # X is shared by two ordinary nodes M1, M2 inside L
+        nodes = [nodes[1], mk('things:Base', 'uidM1', child=0), mk('things:Base', 'uidM2', child=0)]
+        nodes.append(h('uidL', **{slots[1]: 1, slots[2]: 2}))
+        nodes.append(h('uidG', b=3))
+        nodes.append(h('uidT', b=4))
+        return {'kind': 'config', 'recipe': {'nodes': nodes, 'root': 5}, 'scenario': 'subfix',
+                'S': list(draw(st.permutations([4, 3]))),
+                'gen': draw(st.sampled_from(['new_codegen', 'auto_config_codegen'])),
+                'subs': ['S'], 'mec': draw(st.sampled_from([None, None, 1, 3])), 'history': False}
       nodes.append(h('uidL', **{slots[0]: 0, slots[1]: 1, slots[2]: 1}))
       nodes.append(h('uidR', **{slots[0]: 0}))
       nodes.append(h('uidG', b=2, c=3))
       nodes.append(h('uidT', b=4))
-      return {'kind': 'config', 'recipe': {'nodes': nodes, 'root': 5}, 'scenario': 'subfix', 'S': [4, 2, 3],
+      return {'kind': 'config', 'recipe': {'nodes': nodes, 'root': 5}, 'scenario': 'subfix',
+              'S': list(draw(st.permutations([4, 2, 3]))),   # also inner sub-fixtures listed before the outer one
               'gen': draw(st.sampled_from(['new_codegen', 'auto_config_codegen'])),
               'subs': ['S'], 'mec': draw(st.sampled_from([None, None, 1, 3])), 'history': False}
     skw = {slots[0]: 0, slots[1]: 1, slots[2]: 1}
@@ -138,7 +150,7 @@ def strategy_(draw, tier):
   recipe = draw(dags.dag(
       max_nodes=8, min_nodes=2, leaf_profile='any_enum', bts=('Config', 'Config', 'Partial'),
       kinds=['B', 'B', 'B', 'list', 'tuple', 'dict', 'kdict', 'Bpos', 'AFP', 'set', 'nt'],
-      fns=['things:f2', 'things:h1', 'things:Base', 'things:LeafCls'],
+      fns=['things:f2', 'things:h1', 'things:Base', 'things:LeafCls', 'things:kwnames', 'things:Lambda'],
       root_kinds=['B'], p_alias=0.8, allow_copyof=False, tags=True))
   r = draw(st.floats(0, 1))
   for nd in recipe['nodes']:
@@ -369,12 +381,36 @@ def known_features(gen, root, has_tags, sub_fixtures):
   if any(isinstance(v, (set, frozenset)) and any(isinstance(e, enum.Enum) for e in v) for _, v in C.walk(root)):
     # enum members inside a set are emitted fully qualified without an import
     out.append(gen + ':enum-in-set')
-  if sub_fixtures:
-    idn = C.identity_nodes(root)
-    if any(len(ps) > 1 for _, ps in idn.values()):
-      # sub-fixture extraction does not handle values shared across / inside fixtures
-      out.append(gen + ':sub-fixtures-with-shared-values')
+  if sub_fixtures and _sharing_crosses_a_sub_fixture(root, sub_fixtures):
+    # sub-fixture extraction does not handle values shared across a sub-fixture boundary
+    out.append(gen + ':sub-fixtures-with-shared-values')
   return out
+
+
+def _sharing_crosses_a_sub_fixture(root, sub_fixtures):
+  """A shared object that is reachable both through a sub-fixture and without passing through it,
+  or a sub-fixture that is itself referenced more than once.  (Sharing that stays entirely inside
+  one sub-fixture, or entirely outside all of them, is handled correctly and is judged.)"""
+  idn = C.identity_nodes(root)
+  shared = {i for i, (_, ps) in idn.items() if len(ps) > 1}
+  if not shared:
+    return False
+  subs = list(sub_fixtures.values())
+  if any(id(s) in shared for s in subs):
+    return True
+  for s in subs:
+    inside = {id(v) for _, v in C.walk(s)} - {id(s)}
+    outside = set()
+    stack = [root]
+    while stack:
+      x = stack.pop()
+      if x is s or id(x) in outside:
+        continue
+      outside.add(id(x))
+      stack.extend(c for _, c in C.children(x))
+    if shared & inside & outside:
+      return True
+  return False
 
 
 def _bucket_feature(gen, root, has_tags, known):
